@@ -292,6 +292,52 @@ def check_period(ck):
                 ck.ob("C39.period", f, st, False, "callback_time is fixed at construction")
 
 
+def check_chain_identity(ck):
+    """After stop() a timer chain must stay dead.  The re-arm that an in-flight `_run` performs in its finally block is
+    guarded by facts (in `_run` at the `_schedule_next()` call, and in `_schedule_next` at the timer registration).  If every
+    one of those guards is a plain flag attribute that start() itself stores back to the guarded value, a stop(); start()
+    issued while a coroutine callback is still running makes the old chain indistinguishable from the new one: both re-arm,
+    two chains run, invocations overlap.  Any other guard (a generation/token comparison, an identity test on the handle)
+    is taken as chain-specific and accepted."""
+    from ..x_sync import stable_facts
+    run_ = ck.func(IO, PC + "._run")
+    sn = ck.func(IO, PC + "._schedule_next")
+    start = ck.func(IO, PC + ".start")
+    stop = ck.func(IO, PC + ".stop")
+    guards = set()
+    anyf = lambda t: True
+    sf = stable_facts(sn.cfg, anyf)
+    regs = own_find(sn, lambda x: isinstance(x, ast.Call) and q.call_attr(x) in ("add_timeout", "call_at", "call_later"))
+    if not regs:
+        raise AnalysisError("%s: no timer registration found" % sn.site())
+    for nd, c in regs:
+        guards |= set(sf[nd.id])
+    rf = stable_facts(run_.cfg, anyf)
+    calls = _sched_calls(run_)
+    if not calls:
+        raise AnalysisError("%s: _run does not call _schedule_next" % run_.site())
+    for nd, c in calls:
+        guards |= set(rf[nd.id])
+    # what start() stores
+    restored = {}
+    for st in own_walk(start.node):
+        if isinstance(st, ast.Assign) and len(st.targets) == 1 and isinstance(st.value, ast.Constant):
+            p_ = q.dotted(st.targets[0])
+            if p_:
+                restored[p_] = bool(st.value.value)
+    flag_guards = [(t, pol) for t, pol in guards if t in restored and restored[t] == pol]
+    other = [(t, pol) for t, pol in guards if not (t in restored and restored[t] == pol)]
+    # the flags must be what stop() clears (otherwise this is not the stop mechanism at all)
+    cleared = {q.dotted(st.targets[0]) for st in own_walk(stop.node) if isinstance(st, ast.Assign) and len(st.targets) == 1 and isinstance(st.value, ast.Constant)}
+    if not guards:
+        raise AnalysisError("%s: the re-arm is not guarded at all (covered by C39.running)" % sn.site())
+    ok = bool(other)
+    ck.ob("C39.chain-identity", sn, regs[0][1], ok,
+          "the re-arm performed for an in-flight _run depends on something stop() invalidates for that chain; here it is guarded only by %s, which start() stores back — after stop(); start() during a running coroutine callback the old chain re-arms too (two timer chains, overlapping invocations)"
+          % ", ".join(sorted(t for t, _ in flag_guards)),
+          construct="re-arm guarded only by flags start() re-sets: %s" % ",".join(sorted(t for t, _ in flag_guards)))
+
+
 def run(ck):
     ck._orig_repo = getattr(ck, "_orig_repo", None) or ck.repo
     ck.repo = normalized(ck.repo, NORM_MODULES)  # alias / named-boolean / temporary / setter-helper normalisation (vt/x_syncnorm.py)
@@ -301,6 +347,7 @@ def run(ck):
     ck.rule("C39.stop", "stop() clears _running and removes + forgets a pending timer; start() sets _running and the grid origin before its single _schedule_next(); non-positive periods rejected")
     ck.rule("C39.period", "__init__ stores the period in milliseconds: numbers unchanged, timedeltas converted with their days included (abstract evaluation over numbers and timedeltas up to 30 days); non-positive numbers rejected")
     ck.rule("C39.none-test", "the callback's return value is compared with None by identity before it is awaited")
+    ck.rule("C39.chain-identity", "a timer chain stopped by stop() stays dead: the re-arm reached from _run's finally is guarded by something start() does not restore (generation/token/handle identity), not only by the _running flag")
     ck.rule("C39.grid", "_update_next (jitter 0), evaluated with exact rationals on a finite grid: strictly later, whole number of periods, not before now, at most one period ahead / exactly one period on early firing")
 
     check_callers(ck)
@@ -308,6 +355,7 @@ def run(ck):
     check_start_stop(ck)
     check_update_next(ck)
     check_period(ck)
+    check_chain_identity(ck)
     run_ = ck.func(IO, PC + "._run")
     vals = {st.targets[0].id: "return value of the user callback (None or an awaitable, which may be falsy)" for st in own_walk(run_.node)
             if isinstance(st, ast.Assign) and len(st.targets) == 1 and isinstance(st.targets[0], ast.Name) and isinstance(st.value, ast.Call) and q.dotted(st.value.func) == "self.callback"}
@@ -357,6 +405,7 @@ def _unguard(root):
 
 
 MUTANTS = [
+    ("(after the double-chain fix) the generation guard is dropped again", _in("_run", lambda root: _drop_generation_guard(root)), "C39.chain-identity"),
     ("numeric period sent through timedelta and back (rounded to whole microseconds; seeded C39-adv5)", _in("__init__", lambda root: _roundtrip(root)), "C39.period"),
     ("numeric period truncated to whole milliseconds (int())", _in("__init__", replace_stmt(lambda st: isinstance(st, ast.Assign) and ast.unparse(st.targets[0]) == "self.callback_time" and isinstance(st.value, ast.Name), lambda st: [parse_stmt("self.callback_time = int(callback_time)")])), "C39.period"),
     ("timedelta period converted via .seconds (days dropped)", _in("__init__", replace_expr(lambda n: isinstance(n, ast.BinOp) and isinstance(n.op, ast.Div) and "timedelta" in ast.unparse(n.right), lambda n: parse_expr("callback_time.seconds * 1000 + callback_time.microseconds / 1000"))), "C39.period"),
@@ -413,4 +462,14 @@ def _roundtrip(root):
         if isinstance(n, ast.Assign) and ast.unparse(n.targets[0]) == "self.callback_time" and isinstance(n.value, ast.Name):
             n.value = parse_expr("datetime.timedelta(milliseconds=callback_time) / datetime.timedelta(milliseconds=1)")
             return True
+    return False
+
+
+def _drop_generation_guard(root):
+    for t in ast.walk(root):
+        if isinstance(t, ast.Try) and t.finalbody:
+            for i, st in enumerate(t.finalbody):
+                if isinstance(st, ast.If) and "_schedule_next" in ast.unparse(st) and isinstance(st.test, ast.Compare):
+                    t.finalbody[i:i + 1] = st.body
+                    return True
     return False
